@@ -72,7 +72,10 @@ from menelaus.injection import (
 PROPERTY = "C15"
 
 LAYOUTS = ("c", "f", "view", "df", "dfmix", "dfarr")
+ROW_LAYOUTS = ("nd1", "series")  # a single observation handed over as a 1-D container (streaming detectors only)
 LAYOUT_TEXT = {
+    "nd1": "1-D ndarray holding the single row",
+    "series": "pandas Series holding the single row",
     "c": "C-order ndarray",
     "f": "Fortran-order ndarray",
     "view": "non-contiguous strided view into a wider ndarray",
@@ -144,6 +147,8 @@ def _fp_frame(df):
 def fingerprint(obj):
     if isinstance(obj, np.ndarray):
         return _fp_array(obj)
+    if isinstance(obj, pd.Series):
+        return ("series", str(obj.dtype), tuple(repr(i) for i in obj.index.tolist()), obj.to_numpy().tobytes())
     if isinstance(obj, pd.DataFrame):
         return _fp_frame(obj)
     return ("py", repr(obj))
@@ -175,7 +180,15 @@ class Held:
         self.layout = layout
         self.roots = []  # caller arrays the passed object is a window onto
         r, c = data.shape
-        if layout == "c":
+        if layout == "nd1":
+            if r != 1:
+                raise HarnessError("HARNESS-CRASH: 1-D layouts hold exactly one row")
+            self.obj = np.array(data[0], copy=True)
+        elif layout == "series":
+            if r != 1:
+                raise HarnessError("HARNESS-CRASH: 1-D layouts hold exactly one row")
+            self.obj = pd.Series(np.array(data[0], copy=True), index=list(names))
+        elif layout == "c":
             self.obj = np.array(data, order="C", copy=True)
         elif layout == "f":
             self.obj = np.array(data, order="F", copy=True)
@@ -212,6 +225,8 @@ class Held:
         out = list(self.roots)
         if isinstance(self.obj, np.ndarray):
             out.append(self.obj)
+        elif isinstance(self.obj, pd.Series):
+            out.append(self.obj.to_numpy())
         else:
             out.extend(self.obj.iloc[:, j].to_numpy() for j in range(self.obj.shape[1]))
         return out
@@ -231,6 +246,8 @@ class Held:
         o = self.obj
         if isinstance(o, np.ndarray):
             o[...] = junk_for(o.shape, o.dtype, salt)
+        elif isinstance(o, pd.Series):
+            o.iloc[:] = junk_for(o.shape, o.dtype, salt)
         elif self.layout == "dfarr":
             a = self.roots[0]
             a[...] = junk_for(a.shape, a.dtype, salt)
@@ -426,13 +443,15 @@ class ErrFam(Fam):
 
 
 class UniFam(Fam):
-    layouts = ("c", "f", "view", "df", "dfarr")
+    layouts = ("c", "f", "view", "df", "dfarr") + ROW_LAYOUTS
 
     def plan(self, ev, p, ref):
         return "update", "observation", [("X", np.array([[float(ev)]]), ["x"], None)], {}
 
 
 class PCAFam(Fam):
+    layouts = LAYOUTS + ROW_LAYOUTS
+
     def plan(self, ev, p, ref):
         return "update", "observation", [("X", np.array([PCA_POINTS[ev]], dtype=float), ["a", "b"], None)], {}
 
@@ -1111,8 +1130,8 @@ REQUIRED = (
         "container:ndarray",
         "container:DataFrame",
     ]
-    + ["overwrite_layout:%s" % l for l in LAYOUTS]
-    + ["layout:%s" % l for l in LAYOUTS]
+    + ["overwrite_layout:%s" % l for l in LAYOUTS + ROW_LAYOUTS]
+    + ["layout:%s" % l for l in LAYOUTS + ROW_LAYOUTS]
     + ["update_after_adopted_batch_was_overwritten:%s" % n for n in ADOPTERS]
     + ["drift:%s" % n for n in FAMILIES]
     + ["call:MD3.update", "call:MD3.set_reference", "call:MD3.give_oracle_label"]
